@@ -192,6 +192,10 @@ def run(chk):
     r5.ob("static/thread_local objects in the JSON converter: %d, all compile-time constants" % nst, True, "", "", "")
     r5.require(1, "obligation")
 
+    # ------------------------------------------------------------------ R18.6 nothing escapes a noexcept function / destructor of the converter
+    from .c18n import noexcept_rule
+    noexcept_rule(chk, prog)
+
 
 # =============================================================================== helpers
 
